@@ -41,7 +41,10 @@ PROPS["C09"] = {
     "trusted_base": SP_TB + ["termination and allocation of xrv, encoding/xml and etree on arbitrary bytes are not modelled (partial): "
                              "the model covers the library's own logic after parsing plus the inflate bound"],
     "assumptions": [],
-    "rule": "schema-valid responses with every subset of optional parts removed x 4 signing layouts, valid IdP signature re-applied",
+    "rule": "schema-valid responses with every subset of 8 optional parts removed x 4 signing layouts, valid IdP signature re-applied (struct-level model); "
+            "byte-level mutation (bit flips, deletions, duplications, truncation, markup tokens, element drop/duplicate) of the repository's fixtures through 8 entry points "
+            "(ParseXMLResponse, ParseResponse, ParseXMLArtifactResponse, logout form/redirect, NewIdpAuthnRequest+Validate, samlsp.ParseMetadata, samlidp PUT /services) with recover and a 10 s watchdog; "
+            "deflate bombs of 1 KB..100 MB through both inflating entry points with allocation measurement; 11 artifact-resolver fault modes; 17 key-descriptor layouts through the IdP",
 }
 
 PROPS["C15"] = {
